@@ -74,18 +74,14 @@ def C09_volume_deleted_in_data_block(case, params):
     return _by_letter(case, "V", exc="AttributeError", msg="'value'")
 
 
-def C09_vector_after_trailing_jump(case, params):
-    """a data-block card of the five classes whose last input token is a jump (j, 2j) gets a value appended (a cell
-    with information was added, or the last cells got values): the value is fused with the jump ('j10')"""
+def C09_vector_shortcut_garbled(case, params):
+    """a data-block card of the five classes that has shortcuts in the input (nJ nR nI nM, also a last token 'j')
+    is rewritten after its values changed (cells added / removed / reordered, values edited) with tokens that
+    are neither numbers nor shortcuts ('j10', '0RJ'): ListNode.update_with_new_values / ShortcutNode.format (C08)"""
     import props.C09 as C09
     c = _core(case)
-    if c is None or case.get("kind") not in ("vector-entry",):
+    if c is None or case.get("kind") not in ("vector-entry", "misaligned"):
         return False
-    if not C09.ends_with_jump(c["text"]):
-        return False
-    d = case.get("detail") or []
-    toks = [str(x).upper() for x in (d[1] if len(d) > 1 and isinstance(d[1], list) else [])]
-    import re
-    if not any(re.match(r"^\d*J[-+.0-9]", t) for t in toks):
+    if C09.expand_modifier_shortcuts(c["text"]) == c["text"]:
         return False
     return _passes_neutralised(c, C09.model_diag(c))
